@@ -76,29 +76,28 @@ func runC14(c *Collector, r *Rng, thorough bool) {
 		tries = 200000
 	}
 	lzCount := map[string]int{}
-	roundTrip := func(class string, priv *ecdsa.PrivateKey) {
-		rep := map[string]any{"curve": priv.Curve.Params().Name, "x": priv.X.String(), "y": priv.Y.String(), "d": priv.D.String()}
-		size := (priv.Curve.Params().BitSize + 7) / 8
-		// public half
-		op, obs, k, err, p := execKeyFromPub(&priv.PublicKey)
+	var lastPubKey *cose.Key // the decoded public COSE_Key of the last pubHalf call
+	pubHalf := func(class string, pubk *ecdsa.PublicKey, rep map[string]any) bool {
+		size := (pubk.Curve.Params().BitSize + 7) / 8
+		op, obs, k, err, p := execKeyFromPub(pubk)
 		if p {
 			c.Fail("C14/panic", "NewKeyFromPublic panicked", rep)
-			return
+			return false
 		}
 		addCase(c, "frompub/"+class, op, obs, err == nil)
 		if err != nil {
 			c.Fail("C14/frompub-refused", "NewKeyFromPublic refused a valid key: "+err.Error(), rep)
-			return
+			return false
 		}
 		decorate(r, k)
 		b, merr := k.MarshalCBOR()
 		if merr != nil {
 			c.Fail("C14/marshal-refused", "MarshalCBOR refused: "+merr.Error(), rep)
-			return
+			return false
 		}
 		if lx, ly := coordLen(b, -2), coordLen(b, -3); lx != size || ly != size {
 			key := "C14/coordinate-width"
-			if priv.X.Sign() == 0 || priv.Y.Sign() == 0 {
+			if pubk.X.Sign() == 0 || pubk.Y.Sign() == 0 {
 				key = "C14/zero-coordinate"
 			}
 			c.Fail(key, fmt.Sprintf("serialised x/y have %d/%d bytes, field size is %d: %x", lx, ly, size, b), rep)
@@ -106,20 +105,63 @@ func runC14(c *Collector, r *Rng, thorough bool) {
 		d := decodeCase(c, "unmarshal/"+class, "DKey", b)
 		if d.err != nil || d.paniced {
 			c.Fail("C14/unmarshal-refused", fmt.Sprintf("own serialisation refused: %v", d.err), rep)
-			return
+			return false
 		}
 		op, obs, pub, err, _ := execKeyPublic(d.key)
 		addCase(c, "public/"+class, op, obs, err == nil)
 		if err != nil {
 			c.Fail("C14/public-refused", "PublicKey() after the round trip failed: "+err.Error(), rep)
-			return
+			return false
 		}
-		if e, ok := pub.(*ecdsa.PublicKey); !ok || !e.Equal(&priv.PublicKey) {
+		if e, ok := pub.(*ecdsa.PublicKey); !ok || !e.Equal(pubk) {
 			c.Fail("C14/public-differs", "public key after the round trip is not Equal to the original", rep)
 		}
 		if !bytes.Equal(d.key.ID, k.ID) || !bytes.Equal(d.key.BaseIV, k.BaseIV) || fmt.Sprint(d.key.Ops) != fmt.Sprint(k.Ops) {
 			c.Fail("C14/extra-params-lost", "kid / key_ops / base IV changed in the round trip", rep)
 		}
+		lastPubKey = d.key
+		// the same key built with the low-level constructor from the minimal big-endian bytes of x and y (what
+		// big.Int.Bytes() gives, leading zeros dropped): the serialisation must still carry full-width coordinates
+		var alg cose.Algorithm
+		for _, ci := range curves {
+			if ci.curve == pubk.Curve {
+				alg = ci.alg
+			}
+		}
+		xb, yb := pubk.X.Bytes(), pubk.Y.Bytes()
+		if len(xb) > 0 && len(yb) > 0 {
+			if k2, err := cose.NewKeyEC2(alg, xb, yb, nil); err == nil {
+				op, obs, b2, err, p := execEncKey(k2)
+				if p {
+					c.Fail("C14/panic", "MarshalCBOR panicked", rep)
+					return false
+				}
+				addCase(c, "marshal-trimmed/"+class, op, obs, err == nil)
+				if err != nil {
+					c.Fail("C14/marshal-refused", "MarshalCBOR of a key with minimal-length coordinates refused: "+err.Error(), rep)
+				} else {
+					if lx, ly := coordLen(b2, -2), coordLen(b2, -3); lx != size || ly != size {
+						c.Fail("C14/coordinate-width", fmt.Sprintf("key built from %d/%d-byte coordinates is serialised with x/y of %d/%d bytes, field size is %d: %x", len(xb), len(yb), lx, ly, size, b2), rep)
+					}
+					d2 := decodeCase(c, "unmarshal-trimmed/"+class, "DKey", b2)
+					if d2.err == nil && !d2.paniced {
+						if pk, err := d2.key.PublicKey(); err != nil {
+							c.Fail("C14/public-refused", "PublicKey() of the re-parsed key failed: "+err.Error(), rep)
+						} else if e, ok := pk.(*ecdsa.PublicKey); !ok || !e.Equal(pubk) {
+							c.Fail("C14/public-differs", "public key built from minimal-length coordinates differs after the round trip", rep)
+						}
+					}
+				}
+			}
+		}
+		return true
+	}
+	roundTrip := func(class string, priv *ecdsa.PrivateKey) {
+		rep := map[string]any{"curve": priv.Curve.Params().Name, "x": priv.X.String(), "y": priv.Y.String(), "d": priv.D.String()}
+		if !pubHalf(class, &priv.PublicKey, rep) {
+			return
+		}
+		d := struct{ key *cose.Key }{lastPubKey}
 		// private half
 		op, obs, kp, err, p := execKeyFromPriv(priv)
 		if p {
@@ -227,20 +269,31 @@ func runC14(c *Collector, r *Rng, thorough bool) {
 			}
 		}
 	}
-	// the point with x = 0 on P-256 (valid; x has no significant byte at all)
-	{
-		curve := elliptic.P256()
-		p := curve.Params().P
-		y := new(big.Int).ModSqrt(curve.Params().B, p)
-		if y != nil && curve.IsOnCurve(big.NewInt(0), y) {
-			pub := &ecdsa.PublicKey{Curve: curve, X: big.NewInt(0), Y: y}
-			rep := map[string]any{"curve": "P-256", "x": "0", "y": y.String()}
-			op, obs, k, err, _ := execKeyFromPub(pub)
-			addCase(c, "frompub/zero-x", op, obs, err == nil)
-			if err == nil {
-				b, _ := k.MarshalCBOR()
-				if l := coordLen(b, -2); l != 32 {
-					c.Fail("C14/zero-coordinate", fmt.Sprintf("valid P-256 point with x = 0 is serialised with an x of %d bytes: %x", l, b), rep)
+	// valid points with a tiny x coordinate (x = 0, 1, 2, ...: the extreme of "leading zero bytes"; for x = 0 the
+	// coordinate has no significant byte at all), on the three curves; p = 3 mod 4 for all of them
+	for _, ci := range curves {
+		prm := ci.curve.Params()
+		found := 0
+		for xv := int64(0); xv < 64 && found < 6; xv++ {
+			x := big.NewInt(xv)
+			rhs := new(big.Int).Exp(x, big.NewInt(3), prm.P)
+			rhs.Sub(rhs, new(big.Int).Mul(big.NewInt(3), x))
+			rhs.Add(rhs, prm.B)
+			rhs.Mod(rhs, prm.P)
+			y := new(big.Int).ModSqrt(rhs, prm.P)
+			if y == nil || !ci.curve.IsOnCurve(x, y) {
+				continue
+			}
+			found++
+			for _, yy := range []*big.Int{y, new(big.Int).Sub(prm.P, y)} {
+				pub := &ecdsa.PublicKey{Curve: ci.curve, X: x, Y: yy}
+				rep := map[string]any{"curve": ci.name, "x": x.String(), "y": yy.String()}
+				if pubHalf("tiny-x/"+ci.name, pub, rep) {
+					op, obs, _, err, _ := execKeyVerifier(lastPubKey)
+					addCase(c, "verifier/tiny-x/"+ci.name, op, obs, err == nil)
+					if err != nil {
+						c.Fail("C14/signer-verifier-refused", "Verifier() from a round-tripped valid public key failed: "+err.Error(), rep)
+					}
 				}
 			}
 		}
@@ -351,9 +404,29 @@ func zeros(n int) string {
 	return s
 }
 
+// c15Dest is one Key value that every input of the run is also decoded into, as an application that
+// reuses a variable (or walks a key set) does: what it holds after an accepted decode must be the key just
+// decoded, nothing left over from earlier ones.
+var c15Dest cose.Key
+var c15Prev string
+
 func c15One(c *Collector, class string, data []byte) {
 	d := decodeCase(c, "decode/"+class, "DKey", data)
 	rep := map[string]any{"data": hx(data)}
+	{
+		var err2 error
+		p, _ := protect(func() { err2 = c15Dest.UnmarshalCBOR(append([]byte{}, data...)) })
+		if !p && !d.paniced {
+			if (err2 == nil) != (d.err == nil) {
+				c.Fail("C15/decode-depends-on-destination", fmt.Sprintf("decoding into a used Key gives %v, into a fresh one %v", err2, d.err), map[string]any{"data": hx(data), "previous": c15Prev})
+			} else if err2 == nil {
+				if got := oKey(&c15Dest); got != d.value {
+					c.Fail("C15/decode-depends-on-destination", "a Key decoded into a used variable differs from the same bytes decoded into a fresh one: "+trunc(got, 300)+" vs "+trunc(d.value, 300), map[string]any{"data": hx(data), "previous": c15Prev})
+				}
+				c15Prev = hx(data)
+			}
+		}
+	}
 	if d.paniced || d.err != nil {
 		return
 	}
